@@ -115,6 +115,9 @@ def layout():
         "a/foo.go": cff_file("a", ["FooA1", "FooA2"], "A"),
         "a/foo_test.go": cff_file("a", ["FooAT"], "AT", test=True),
         "a/subfoo.go": cff_file("a", ["SubFooA"], "AS"),        # its name ends in the name of another file
+        # the constraint directly above the package clause / glued to the package documentation (no blank line)
+        "a/adjoin.go": cff_file("a", ["AdjoinA"], "AJ").replace("//go:build cff\n\npackage a", "//go:build cff\npackage a", 1),
+        "a/docglued.go": cff_file("a", ["DocGluedA"], "DG").replace("//go:build cff\n\npackage a", "//go:build cff\n// Package a is documented here.\npackage a", 1),
         "a/plain.go": "package a\n\n// no directive, no tag\nfunc Plain() int { return 1 }\n",
         "a/tagged_no_directive.go": "//go:build cff\n\npackage a\n\nfunc TaggedOnly() int { return 2 }\n",
         "b/foo.go": cff_file("b", ["FooB1"], "B"),
@@ -122,7 +125,7 @@ def layout():
         "c/deep/foo.go": cff_file("deep", ["FooC1"], "C"),
     }
     files["b/bad.go"] = BAD_FILE
-    with_directives = ["a/foo.go", "a/foo_test.go", "a/subfoo.go", "b/foo.go", "b/bar.go", "c/deep/foo.go"]
+    with_directives = ["a/foo.go", "a/foo_test.go", "a/subfoo.go", "a/adjoin.go", "a/docglued.go", "b/foo.go", "b/bar.go", "c/deep/foo.go"]
     return files, with_directives
 
 
@@ -190,6 +193,26 @@ def apply(chk):
         chk.violate("cff ./... wrote %s and modified %s; the documented outputs are %s" % (sorted(created), sorted(modified), sorted(expected)),
                     {"layout": sorted(files), "created": sorted(created), "modified": sorted(modified), "expected": sorted(expected), "cff_output": out[-1500:], "module": mod})
         return
+    # the constraint of every output is the inversion of its source's: without the cff tag the go tool
+    # selects the outputs and not the sources, with it the sources and not the outputs
+    for tags in ("", "cff"):
+        rc2, o2, e2 = common.run(["go", "list", "-tags", tags, "-f", "{{.Dir}}|{{join .GoFiles \" \"}} {{join .TestGoFiles \" \"}}", "./..."],
+                                 cwd=mod, env=common.GOENV, check=False, timeout=600)
+        sel = set()
+        for line in o2.split("\n"):
+            d, _, fs = line.partition("|")
+            for fn in fs.split():
+                sel.add(os.path.relpath(os.path.join(d, fn), mod))
+        chk.count(1, key=("files", "go list", tags))
+        for f, n in zip(withdir, names):
+            g = os.path.join(os.path.dirname(f), n)
+            want_src, want_gen = (tags == "cff"), (tags != "cff")
+            if (f in sel) != want_src or (g in sel) != want_gen:
+                chk.violate("with build tags [%s] the go tool %s %s and %s its output %s: the output's constraint is not the source's with cff inverted" % (
+                    tags, "selects" if f in sel else "ignores", f, "selects" if g in sel else "ignores", g),
+                    {"tags": tags, "source": f, "generated": g, "source_header": open(os.path.join(mod, f)).read()[:200],
+                     "generated_header": open(os.path.join(mod, g)).read()[:300], "module": mod})
+                return
     # what is preserved
     toks = {}
     paths = [os.path.join(mod, f) for f in withdir] + [os.path.join(mod, f) for f in sorted(expected)]
@@ -248,12 +271,14 @@ def apply(chk):
                 {"selection": sels, "package": pkgdir, "exit_status": rc, "created": sorted(created), "modified": sorted(modified),
                  "model_exit": mexit, "model_written": sorted(mwritten), "cff_output": out[-1000:], "module": mod})
             return
-    for sel, outp in (("foo.go", None), ("foo.go", os.path.join(mod, "out", "x_gen.go")), ("subfoo.go", None)):
+    # (a relative OUTPUT is relative to the directory the tool runs in, here the module root)
+    for sel, outp in (("foo.go", None), ("foo.go", os.path.join(mod, "out", "x_gen.go")), ("subfoo.go", None),
+                      ("foo.go", "rel_gen.go"), ("foo.go", os.path.join("out", "rel2_gen.go"))):
         for f in snapshot(mod):
             if f not in before:
                 os.remove(os.path.join(mod, f))
         if outp:
-            os.makedirs(os.path.dirname(outp), exist_ok=True)
+            os.makedirs(os.path.dirname(os.path.join(mod, outp)), exist_ok=True)
         b2 = snapshot(mod)
         arg = "%s=%s" % (sel, outp) if outp else sel
         rc, out = common.run_cff(mod, "./a", extra=["-file", arg])
@@ -261,7 +286,7 @@ def apply(chk):
         a2 = snapshot(mod)
         created = {f for f in a2 if f not in b2}
         modified = {f for f in b2 if a2.get(f) != b2[f]}
-        want = {os.path.relpath(outp, mod)} if outp else {"a/" + sel[:-3] + "_gen.go"}
+        want = {os.path.relpath(os.path.join(mod, outp), mod)} if outp else {"a/" + sel[:-3] + "_gen.go"}
         if rc != 0 or created != want or modified:
             chk.violate("cff -file=%s ./a wrote %s and modified %s (exit %d); expected exactly %s" % (arg, sorted(created), sorted(modified), rc, sorted(want)),
                         {"created": sorted(created), "modified": sorted(modified), "expected": sorted(want), "cff_output": out[-1000:], "module": mod})
